@@ -571,3 +571,9 @@ def probe_known(ctx, finding):
     snaps = S.run_history(S.USERS_ANON, S.TREE, to_events(cmds))
     f = oracle(cmds, snaps) + restart_scope_oracle(cmds, snaps)
     return any(x["signature"] == finding["signature"] for x in f)
+
+
+# the long-lived process: the same probe session after earlier sessions of the same server (props/history.py)
+from props import history as _history  # noqa: E402
+
+correspondence, search, replay = _history.attach(PID, correspondence, search, replay, pasts=None)
